@@ -801,3 +801,172 @@ Proof.
     + apply (remove_included_spec pit tl x E1).
     + apply IH. reflexivity.
 Qed.
+
+(* ------------------------------------------------------------------------------------------ *)
+(* (f) prices include a tax and no other tax applies: total with tax = gross sum              *)
+(* ------------------------------------------------------------------------------------------ *)
+(* every combo is of the included category, not retained, without surcharge *)
+Definition combo_inv (pit : bytes) (cb : combo) : Prop :=
+  cb_cat cb = pit /\ cb_sur cb = None /\ cb_retained cb = false.
+Definition only_included_tax (d : doc) : Prop :=
+  d_pit d <> [] /\
+  Forall (fun l => Forall (combo_inv (d_pit d)) (ln_taxes l)) (d_lines d) /\
+  Forall (fun x => Forall (combo_inv (d_pit d)) (dd_taxes x)) (d_discounts d) /\
+  Forall (fun x => Forall (combo_inv (d_pit d)) (dd_taxes x)) (d_charges d).
+
+(* sum of the lines, less document discounts, plus document charges (working precision) *)
+Definition doc_gross (d : doc) (lcs : list line_calc) : amount :=
+  let sum := doc_sum d lcs in
+  let total0 := match sum_opt (d_c d) (map snd (doc_ddc d lcs (d_discounts d))) with
+                | Some x => sub sum x | None => sum end in
+  match sum_opt (d_c d) (map snd (doc_ddc d lcs (d_charges d))) with
+  | Some x => add total0 x | None => total0 end.
+
+Definition cat_inv (pit : bytes) (ct : cat_total) : Prop :=
+  ct_code ct = pit /\ ct_retained ct = false /\ Forall (fun g => rt_sur g = None) (ct_rates ct).
+
+Lemma add_to_rates_nosur cr c tot cb rts : cb_sur cb = None ->
+  Forall (fun g => rt_sur g = None) rts -> Forall (fun g => rt_sur g = None) (add_to_rates cr c tot cb rts).
+Proof.
+  intros Hc. induction rts as [|rt r IH]; intros F; cbn [add_to_rates].
+  - constructor; [exact Hc|constructor].
+  - inversion F; subst. destruct (rt_matches rt cb); constructor; auto.
+Qed.
+
+Lemma add_to_cats_inv cr c tot cb cts pit : combo_inv pit cb ->
+  Forall (cat_inv pit) cts -> Forall (cat_inv pit) (add_to_cats cr c tot cb cts).
+Proof.
+  intros (C1 & C2 & C3). induction cts as [|ct r IH]; intros F; cbn [add_to_cats].
+  - constructor; [|constructor]. unfold cat_inv. cbn [ct_with_rates new_ct ct_code ct_retained ct_rates].
+    repeat split; auto. constructor; [exact C2|constructor].
+  - inversion F as [|? ? (A1 & A2 & A3) F']; subst.
+    destruct (eqb_bytes (ct_code ct) (cb_cat cb)).
+    + constructor; [|exact F'].
+      unfold cat_inv. cbn [ct_with_rates ct_code ct_retained ct_rates].
+      split; [exact A1|]. split; [exact A2|]. apply add_to_rates_nosur; assumption.
+    + constructor; [exact (conj A1 (conj A2 A3))|]. apply IH, F'.
+Qed.
+
+Lemma base_totals_inv cr c pit tls :
+  Forall (Forall (combo_inv pit)) (map tl_taxes tls) -> Forall (cat_inv pit) (base_totals cr c tls).
+Proof.
+  unfold base_totals.
+  assert (G : forall cts, Forall (Forall (combo_inv pit)) (map tl_taxes tls) -> Forall (cat_inv pit) cts ->
+                          Forall (cat_inv pit) (fold_left (add_tl cr c) tls cts)).
+  { induction tls as [|tl r IH]; intros cts F W; cbn [fold_left]; auto.
+    cbn [map] in F. inversion F as [|? ? F1 F2]; subst. apply IH; [exact F2|].
+    unfold add_tl. generalize (tl_total tl) as tot. intros tot. clear - F1 W.
+    revert cts W. induction (tl_taxes tl) as [|cb l IHl]; intros cts W; cbn [fold_left]; auto.
+    inversion F1; subst. apply IHl; [assumption|]. apply add_to_cats_inv; assumption. }
+  intros F. apply G; [exact F|constructor].
+Qed.
+
+Lemma one_code_nodup {A} (a : A) (l : list A) :
+  NoDup l -> (forall x, In x l -> x = a) -> (length l <= 1)%nat.
+Proof.
+  intros N H. destruct l as [|x [|y r]]; cbn [length]; try lia. exfalso.
+  inversion N as [|? ? N1 _]; subst. apply N1.
+  rewrite (H x), (H y) by (cbn; auto). left. reflexivity.
+Qed.
+
+Lemma val_rescale_zero c e : val (rescale (zero_of c) e) = 0%Z.
+Proof. rewrite rescale_val, (roundQ_compat e _ 0 (toQ_zero c)). reflexivity. Qed.
+
+Lemma add_zero a c : add a (zero_of c) = a.
+Proof. unfold add. rewrite val_rescale_zero. destruct a as [v e]. cbn [val exp]. f_equal. lia. Qed.
+
+Lemma add_sub_cancel a x y : toQ x == toQ y -> add (sub a x) y = a.
+Proof.
+  intros E. unfold add, sub. cbn [val exp]. rewrite !rescale_val, (roundQ_compat _ _ _ E).
+  destruct a as [v e]. cbn [val exp]. f_equal. lia.
+Qed.
+
+Lemma toQ_val0 a : val a = 0%Z -> toQ a == 0.
+Proof. intros E. unfold toQ, Qeq. cbn [Qnum Qden]. rewrite E. reflexivity. Qed.
+
+Lemma precise_or_toQ p c : toQ (precise_or p (rescale p c)) == toQ p.
+Proof.
+  unfold precise_or, is_zero. destruct (val p =? 0)%Z eqn:E; [|reflexivity].
+  apply Z.eqb_eq in E. pose proof (toQ_val0 p E) as Z0.
+  rewrite Z0. apply toQ_val0. rewrite rescale_val, (roundQ_compat c _ 0 Z0). reflexivity.
+Qed.
+
+Lemma tax_lines_taxes lcs ls dd cc pit :
+  Forall (fun l => Forall (combo_inv pit) (ln_taxes l)) ls ->
+  Forall (fun x => Forall (combo_inv pit) (dd_taxes (fst x))) dd ->
+  Forall (fun x => Forall (combo_inv pit) (dd_taxes (fst x))) cc ->
+  Forall (Forall (combo_inv pit)) (map tl_taxes (tax_lines lcs ls dd cc)).
+Proof.
+  intros F1 F2 F3. unfold tax_lines. rewrite !map_app, !map_map. cbn [tl_taxes].
+  rewrite !Forall_app. repeat split.
+  - apply Forall_forall. intros x I. apply in_map_iff in I. destruct I as ([lc l] & <- & I).
+    apply in_combine_r in I. rewrite Forall_forall in F1. apply (F1 l I).
+  - apply Forall_forall. intros x I. apply in_map_iff in I. destruct I as (y & <- & I).
+    rewrite Forall_forall in F2. apply (F2 y I).
+  - apply Forall_forall. intros x I. apply in_map_iff in I. destruct I as (y & <- & I).
+    rewrite Forall_forall in F3. apply (F3 y I).
+Qed.
+
+Lemma doc_ddc_taxes d lcs xs pit :
+  Forall (fun x => Forall (combo_inv pit) (dd_taxes x)) xs ->
+  Forall (fun x => Forall (combo_inv pit) (dd_taxes (fst x))) (doc_ddc d lcs xs).
+Proof.
+  intros F. unfold doc_ddc. apply Forall_forall. intros x I. apply in_map_iff in I.
+  destruct I as (y & <- & I). cbn [fst]. rewrite Forall_forall in F. apply (F y I).
+Qed.
+
+Lemma match_nonempty {A B} (l : list A) (x y : B) :
+  l <> [] -> match l with [] => x | _ :: _ => y end = y.
+Proof. destruct l; [congruence|reflexivity]. Qed.
+
+Lemma included_tax_gross_identity d t : only_included_tax d -> calculate d = Totals t ->
+  exists lcs,
+    calc_lines (d_currency_rule d) (d_c d) (d_cur d) (d_rates d) (d_lines d) = Some lcs /\
+    t_twt t = rescale (doc_gross d lcs) (d_c d).
+Proof.
+  intros (Hpit & HL & HD & HC) H.
+  unfold calculate in H.
+  destruct (calc_lines _ _ _ _ _) as [lcs|] eqn:EL; [|discriminate].
+  exists lcs. split; [reflexivity|].
+  fold (doc_sum d lcs) in H. fold (doc_ddc d lcs (d_discounts d)) in H. fold (doc_ddc d lcs (d_charges d)) in H.
+  fold (doc_rows d lcs) in H. fold (doc_gross d lcs) in H.
+  destruct (doc_rows d lcs) as [|r0 rs] eqn:ER; [discriminate|]. rewrite <- ER in H.
+  destruct (remove_included_all _ _) as [rows|] eqn:ERem; [|discriminate].
+  injection H as <-. cbn [t_twt]. f_equal.
+  set (cr := d_currency_rule d) in *. set (c := d_c d) in *. set (pit := d_pit d) in *.
+  (* the categories: none, or exactly the included one without surcharge *)
+  assert (INV : Forall (cat_inv pit) (base_totals cr c rows)).
+  { apply base_totals_inv. rewrite (remove_included_all_taxes _ _ _ ERem), map_map.
+    erewrite map_ext; [|intros tl; apply (prepare_tl_spec c tl)].
+    apply tax_lines_taxes; auto using doc_ddc_taxes. }
+  destruct (groups_pairwise_distinct cr c rows) as [ND _].
+  assert (LEN : (length (base_totals cr c rows) <= 1)%nat).
+  { rewrite <- (map_length ct_code). apply (one_code_nodup pit); [exact ND|].
+    intros x I. apply in_map_iff in I. destruct I as (ct & <- & I).
+    rewrite Forall_forall in INV. apply (INV ct I). }
+  rewrite (match_nonempty pit _ _ Hpit).
+  destruct (base_totals cr c rows) as [|ct0 [|ct1 r]] eqn:EB; cbn [length] in LEN; [| |lia].
+  - (* no taxed row at all *)
+    cbn [map fold_left find_cat].
+    unfold precise_or at 1. cbn [is_zero zero_of val Z.eqb].
+    rewrite rescale_same by reflexivity. apply add_zero.
+  - inversion INV as [|? ? (I1 & I2 & I3) _]; subst.
+    cbn [map fold_left find_cat ct_round ct_code ct_precise ct_amount].
+    replace (ct_code (ct_calc cr c ct0)) with (ct_code ct0) by reflexivity.
+    rewrite I1, eqb_bytes_refl.
+    set (ct' := ct_calc cr c ct0).
+    change (ct_precise (ct_round c ct')) with (ct_amount ct').
+    change (ct_amount (ct_round c ct')) with (rescale (ct_amount ct') c).
+    apply add_sub_cancel.
+    rewrite !precise_or_toQ.
+    destruct (sum_step_spec cr c (zero_of c) ct') as [S _]; [reflexivity|apply ct_calc_exp_ok|].
+    rewrite S, toQ_zero. unfold signedQ.
+    replace (ct_retained ct') with (ct_retained ct0) by reflexivity. rewrite I2.
+    destruct (category_amount_is_sum_of_groups cr c ct0) as (_ & _ & NS & _). fold ct' in NS.
+    assert (N : ct_surcharge ct' = None).
+    { apply NS. unfold ct', ct_calc. cbn [ct_rates]. clear - I3.
+      induction (ct_rates ct0) as [|g r IH]; [reflexivity|]. inversion I3; subst.
+      cbn [map existsb]. rewrite IH by assumption. unfold carries_surcharge.
+      rewrite rt_calc_sur, H1. destruct (rt_pct _); reflexivity. }
+    rewrite N. cbn [optQ]. ring.
+Qed.
